@@ -209,6 +209,17 @@ pub fn run_impl_all(cases: &[Case], f: &ImplFn<'_>) -> Vec<String> {
     out.into_iter().flatten().collect()
 }
 
+static CASE_OFFSET: std::sync::atomic::AtomicUsize = std::sync::atomic::AtomicUsize::new(0);
+
+/// `VERIF_SHARD=lo:hi` restricts a run to the generated cases with global index in [lo, hi) (used by
+/// ./check to localise a case that kills the harness process: abort, heap corruption); the requests
+/// of a shard of at most 64 cases are appended to `VERIF_SHARD_LOG` before they are executed
+fn shard() -> Option<(usize, usize)> {
+    let v = std::env::var("VERIF_SHARD").ok()?;
+    let mut it = v.split(':');
+    Some((it.next()?.parse().ok()?, it.next()?.parse().ok()?))
+}
+
 /// run one section of cases through implementation, model and judge; failures are shrunk
 pub fn run_section(
     rep: &mut Report,
@@ -218,11 +229,32 @@ pub fn run_section(
     run_impl: &ImplFn<'_>,
     judge: &JudgeFn<'_>,
 ) {
+    let base = CASE_OFFSET.fetch_add(cases.len(), std::sync::atomic::Ordering::SeqCst);
+    let mut cases = cases;
+    let mut sequential = false;
+    if let Some((lo, hi)) = shard() {
+        cases = cases.into_iter().enumerate().filter(|(i, _)| base + i >= lo && base + i < hi).map(|(_, c)| c).collect();
+        sequential = true;
+        if hi - lo <= 64 {
+            if let Ok(path) = std::env::var("VERIF_SHARD_LOG") {
+                use std::io::Write;
+                if let Ok(mut f) = std::fs::OpenOptions::new().create(true).append(true).open(path) {
+                    for c in &cases {
+                        let _ = writeln!(f, "{}", c.req());
+                    }
+                }
+            }
+        }
+    }
     if cases.is_empty() {
         return;
     }
     let reqs: Vec<String> = cases.iter().map(|c| c.req()).collect();
-    let impl_out = run_impl_all(&cases, run_impl);
+    let impl_out = if sequential {
+        cases.iter().map(|c| match catch(std::panic::AssertUnwindSafe(|| run_impl(c))) { Ok(s) => s, Err(m) => format!("panic:{}", m) }).collect()
+    } else {
+        run_impl_all(&cases, run_impl)
+    };
     let model_out = model.query(&reqs);
     let mut failing: Vec<(usize, Verdict)> = Vec::new();
     for (i, c) in cases.iter().enumerate() {
